@@ -290,8 +290,17 @@ func genInput(kind string, n int) string {
 	return b.String()
 }
 
-func errSweepOne(id, sql, class string, big bool, reps int) sweepOut {
+var sweepPrevSQL string
+var sweepTick int
+var sweepDisturbers = []string{"\t\t'abc", "SELECT a,\n  b\nFROM t\nWHERE x = 'y'\n\n\n", "SELECT 1;\n\n\t\tSELECT \"q", "/* c */ SELECT\n\n\n\n\n\n\n\n'x"}
+
+func errSweepOne(id, sql, class string, big bool, reps int, only []string) sweepOut {
 	t0 := time.Now()
+	defer func() {
+		if !big && len(sql) < 4096 {
+			sweepPrevSQL = sql
+		}
+	}()
 	out := sweepOut{ID: id, Class: class, Bytes: len(sql)}
 	lines := strings.Split(sql, "\n")
 	out.NLines = len(lines)
@@ -319,10 +328,32 @@ func errSweepOne(id, sql, class string, big bool, reps int) sweepOut {
 		}
 	}
 	for _, ep := range errEntryPoints(big) {
+		if len(only) > 0 {
+			keep := false
+			for _, n := range only {
+				if n == ep.name {
+					keep = true
+				}
+			}
+			if !keep {
+				continue
+			}
+		}
 		var runs [][]error
 		var pan string
 		for r := 0; r < reps; r++ {
 			var es []error
+			if r == 1 {
+				// between the repeated calls the same entry point runs on other inputs: pooled tokenizers and
+				// parsers then carry another input's history into the repeat ("the same input always produces the
+				// same code, message and location" must hold on warm pools too)
+				sweepTick++
+				d := sweepDisturbers[sweepTick%len(sweepDisturbers)]
+				if sweepTick%2 == 0 && sweepPrevSQL != "" {
+					d = sweepPrevSQL
+				}
+				guarded(func() { ep.run(d) })
+			}
 			p := guarded(func() { es = ep.run(sql) })
 			if p != "" {
 				pan = p
@@ -566,7 +597,10 @@ func ctxSweepOne(id, sql string, maxK int) ctxOut {
 		a, err := p.ParseContextFromModelTokens(cc, toks)
 		ep.Polls = cc.polls
 		ep.FreeSame = resHash(a, err) == free
-		ep.TotalWork = len(toks)
+		ep.TotalWork = p.VerifState().Pos // where the cursor stopped (a rejected input stops early)
+		if ep.TotalWork > len(toks) {
+			ep.TotalWork = len(toks)
+		}
 		probeTk, _ := tokenizer.New()
 		probeToks, _ := probeTk.Tokenize([]byte(probeSQL))
 		pa, pe := parser.NewParser().ParseFromModelTokens(probeToks)
@@ -685,7 +719,8 @@ func init() {
 					Kind string `json:"kind"`
 					N    int    `json:"n"`
 				} `json:"gen"`
-				Big bool `json:"big"`
+				Big  bool     `json:"big"`
+				Only []string `json:"only"` // restrict to these entry points (very large inputs in the quick tier)
 			}
 			if json.Unmarshal(sc.Bytes(), &in) != nil {
 				continue
@@ -695,7 +730,7 @@ func init() {
 				sql = genInput(in.Gen.Kind, in.Gen.N)
 				in.Big = true
 			}
-			_ = enc.Encode(errSweepOne(in.ID, sql, in.Class, in.Big, reps))
+			_ = enc.Encode(errSweepOne(in.ID, sql, in.Class, in.Big, reps, in.Only))
 			w.Flush()
 		}
 		return 0
